@@ -45,7 +45,7 @@ func c12Run(x *core.Ctx) {
 	}
 	r := x.Rand(uint64(x.Shard))
 	for i := 0; i < n; i++ {
-		rn := &model.Renderer{R: r.Fork(uint64(i)), BlockValue: ref.BlockStringValue, Trivia: i % 3}
+		rn := &model.Renderer{R: r.Fork(uint64(i)), BlockValue: ref.BlockStringValue, Trivia: i % 3, WideComments: true}
 		var d *model.Doc
 		if i%7 == 0 {
 			d = gen.DeepSelections(r, 1+r.Intn(4))
